@@ -1,7 +1,7 @@
 (* C10 — xarray operations keep a UxDataArray attached to a consistent grid. Statements only.
    c10_routes is re-measured on the installed xarray on every run (Gen/C10_route.v). *)
 From Coq Require Import String.
-From Verif Require Import Base C10 C10_route C10_proofs.
+From Verif Require Import Base C10 C10_route C10_proofs C10_more_proofs.
 
 (* for all finite compositions (any depth) of operations whose final hook attaches the grid, and of
    uxarray's own operations: the result is a UxDataArray on a grid whose element counts equal the
@@ -34,3 +34,33 @@ Theorem C10_plain_refuted : forall sz v o h,
   c10_consistent sz (c10_step sz v (XOp h o)) = false.
 Proof. exact plain_route_refuted. Qed.
 Print Assumptions C10_plain_refuted.
+
+(* what an operation must NOT change: uxarray's own operations touch the grid dimension only *)
+Theorem C10_ux_ops_keep_other_dims : forall sz v op,
+  match op with XOp _ _ => False | UTopoAgg dst | URemap _ dst => c10_is_grid_dim dst = true | _ => True end ->
+  nongrid (v_dims (c10_step sz v op)) = nongrid (v_dims v).
+Proof. exact ux_ops_keep_other_dims. Qed.
+Print Assumptions C10_ux_ops_keep_other_dims.
+
+(* which grid the result is attached to: the family changes exactly at isel/subset, remap and dual *)
+Theorem C10_result_family : forall sz v op f g, v_grid v = Some (f, g) -> c10_op_ok op = true ->
+  exists g', v_grid (c10_step sz v op) = Some (c10_family_after op f, g').
+Proof. exact result_family. Qed.
+Print Assumptions C10_result_family.
+
+(* k deep copies in a row: an equal grid (same family), k objects away *)
+Theorem C10_deep_copies_generation : forall sz k v f g, v_grid v = Some (f, g) ->
+  v_grid (c10_eval sz (repeat (XOp HCopyDeep DKeep) k) v) = Some (f, g + Z.of_nat k).
+Proof. exact deep_copies_generation. Qed.
+Print Assumptions C10_deep_copies_generation.
+
+(* machine-checked counterparts of the listed findings *)
+Theorem C10_griddim_index_refuted :
+  exists sz v n, c10_consistent sz v = true /\
+    c10_consistent sz (c10_step sz v (XOp HReplace (DResize 2 n))) = false.
+Proof. exact griddim_index_refuted. Qed.
+Print Assumptions C10_griddim_index_refuted.
+
+Theorem C10_gridless_route_refuted : forall sz v o, c10_consistent sz (c10_step sz v (XOp HInit o)) = false.
+Proof. exact gridless_route_refuted. Qed.
+Print Assumptions C10_gridless_route_refuted.
